@@ -141,9 +141,25 @@ void v_feature(const char *prop, int nontrivial, const char *fmt, ...) {
     jb_t j; rec_head(&j, "f", prop); jb_str(&j, "f", m); jb_int(&j, "nt", nontrivial);
     jb_obj_end(&j); jb_emit(&j); jb_free(&j);
 }
-void v_count(const char *prop, const char *name, int64_t v) {
+/* counters are accumulated per case and flushed once */
+#define NCOUNT 96
+static struct { char prop[8]; char name[56]; int64_t v; } g_cnt[NCOUNT];
+static int g_ncnt;
+static void count_emit(const char *prop, const char *name, int64_t v) {
     jb_t j; rec_head(&j, "n", prop); jb_str(&j, "name", name); jb_int(&j, "v", v);
     jb_obj_end(&j); jb_emit(&j); jb_free(&j);
+}
+void v_count_flush(void) {
+    for (int i = 0; i < g_ncnt; ++i) count_emit(g_cnt[i].prop, g_cnt[i].name, g_cnt[i].v);
+    g_ncnt = 0;
+}
+void v_count(const char *prop, const char *name, int64_t v) {
+    for (int i = 0; i < g_ncnt; ++i) if (!strcmp(g_cnt[i].prop, prop) && !strcmp(g_cnt[i].name, name)) { g_cnt[i].v += v; return; }
+    if (g_ncnt == NCOUNT) v_count_flush();
+    snprintf(g_cnt[g_ncnt].prop, sizeof(g_cnt[0].prop), "%s", prop);
+    snprintf(g_cnt[g_ncnt].name, sizeof(g_cnt[0].name), "%s", name);
+    g_cnt[g_ncnt].v = v;
+    g_ncnt++;
 }
 void v_sample(const char *prop, const char *json) {
     jb_t j; rec_head(&j, "s", prop); jb_u64(&j, "idx", g_case); jb_raw(&j, "s", json);
@@ -218,7 +234,7 @@ int v_run_cases(case_fn fn, void *ctx, uint64_t first, uint64_t count, uint64_t 
         uint64_t idx = first + k * stride;
         g_case = idx;
         g_sh->api[0] = 0; g_sh->ctx[0] = 0;
-        if (o->no_fork) { fn(idx, ctx); fflush(stdout); ++ran; continue; }
+        if (o->no_fork) { fn(idx, ctx); v_count_flush(); fflush(stdout); ++ran; continue; }
         int attempt = 0;
     again:
         fflush(stdout);
@@ -232,6 +248,7 @@ int v_run_cases(case_fn fn, void *ctx, uint64_t first, uint64_t count, uint64_t 
             int fd = open(errpath, O_WRONLY | O_CREAT | O_TRUNC, 0600);
             if (fd >= 0) { dup2(fd, 2); close(fd); }
             fn(idx, ctx);
+            v_count_flush();
             fflush(stdout);
             _exit(0);
         }
